@@ -43,6 +43,10 @@ Mon0 == [ np     |-> 0,       \* probes created so far
           hcomp  |-> <<>>,    \* handle -> composite handle it was appended to (0: none)
           hx     |-> <<>>,    \* handle -> the published AST whose connect() returned it (0: not a connection)
           hend   |-> <<>>,    \* handle -> 1 + length of g when it was unsubscribed (0: still subscribed)
+          now    |-> 0,       \* virtual time (sum of the "adv" stimuli)
+          gt     |-> <<>>,    \* virtual time of every timeline entry
+          ht     |-> <<>>,    \* handle -> virtual time of the subscription
+          pat    |-> <<>>,    \* probe -> virtual time of each of its notifications
           g      |-> <<>>,    \* global timeline <<a, t, v>> of the notifications sent into the hot inputs
           unsubd |-> <<>>,    \* handle -> unsubscribe() has returned (or it was torn down by its composite)
           closed |-> <<>>,    \* handle -> is_closed() has answered true
@@ -70,7 +74,7 @@ RefProps == {"C03", "C04", "C05", "C06", "C11", "C12", "C13"}
 (* are made at the same timeline position                                                                *)
 NewHandle(m, root) ==
   [m EXCEPT !.nh = @ + 1, !.hroot = Append(@, root), !.h0 = Append(@, Len(m.g)), !.hcomp = Append(@, 0),
-            !.hx = Append(@, 0), !.g = Append(@, <<0, "H", I(m.nh + 1)>>)]
+            !.hx = Append(@, 0), !.ht = Append(@, m.now), !.g = Append(@, <<0, "H", I(m.nh + 1)>>)]
 
 (* --- one probe notification --- *)
 LogOne(m, e, C) ==
@@ -80,7 +84,8 @@ LogOne(m, e, C) ==
       m1 == Flag(m, GetB(m.term, p), "C01", checks)
       m2 == Flag(m1, h > 0 /\ GetB(m.unsubd, h), "C02", checks)
       m3 == Flag(m2, h > 0 /\ GetB(m.closed, h), "C17", checks)
-      m4 == [m3 EXCEPT !.plog = SetAt(@, p, Append(GetS(@, p), <<e.t, e.v>>), <<>>)]
+      m4 == [m3 EXCEPT !.plog = SetAt(@, p, Append(GetS(@, p), <<e.t, e.v>>), <<>>),
+                       !.pat = SetAt(@, p, Append(GetS(@, p), e.at), <<>>)]
       m5 == IF e.t \in {"E", "C"}
             THEN [m4 EXCEPT !.term = SetAt(@, p, TRUE, FALSE),
                             !.trig = IF h > 0 THEN SetAt(@, h, TRUE, FALSE) ELSE @]
@@ -134,6 +139,51 @@ GroupCheck(m, C) ==
                     /\ m.gp[j][3] <= Len(keys)
                     /\ GetS(m.plog, m.gp[j][1]) = NMsgs(ItemsOfKey(PA(x), src.items, keys[m.gp[j][3]])) \o TermMsgs(src)
 
+(* --- C07: scheduler-moving operators preserve the source's sequence and never deliver early --- *)
+MovingOps == {"delay", "observe_on", "delay_subscription", "subscribe_on"}
+RECURSIVE ItemsOf(_)
+ItemsOf(msgs) == IF msgs = <<>> THEN <<>> ELSE (IF Head(msgs)[1] = "N" THEN <<Head(msgs)[2]>> ELSE <<>>) \o ItemsOf(Tail(msgs))
+TermOf(msgs) == IF msgs # <<>> /\ msgs[Len(msgs)][1] # "N" THEN msgs[Len(msgs)][1] ELSE ""
+IsPrefixSeq(a, b) == Len(a) <= Len(b) /\ a = SubSeq(b, 1, Len(a))
+IsInfix(a, b) == \E i \in 0..(Len(b) - Len(a)) : a = SubSeq(b, i + 1, i + Len(a))
+RECURSIVE FirstPos(_, _, _, _, _)
+(* the first timeline position k >= lo at which the documented output of y holds at least i items *)
+FirstPos(y, g, lo, k, i) ==
+  IF k > Len(g) THEN Len(g) + 1
+  ELSE IF Len(Ref(y, g, lo, k, {}).items) >= i THEN k ELSE FirstPos(y, g, lo, k + 1, i)
+
+C07Check(m, o, C) ==
+  \A p \in 1..m.np :
+     LET h == GetI(m.ph, p) IN
+     (h > 0 /\ m.hroot[h] > 0 /\ Op(m.hroot[h]) \in MovingOps) =>
+       LET x == m.hroot[h]
+           op == Op(x)
+           hi == IF GetI(m.hend, h) > 0 THEN m.hend[h] - 1 ELSE Len(m.g)
+           ref == Ref(S1(x), m.g, m.h0[h], hi, {})
+           got == GetS(m.plog, p)
+           gotN == ItemsOf(got)
+           gt == TermOf(got)
+           at == GetS(m.pat, p)
+           anyorder == "anyorder" \in C.checks /\ "F4" \in KF
+           cold == Op(S1(x)) \notin {"subject", "hotc"}
+           delayed == op \in {"delay", "observe_on"}
+           d == IF op = "delay" \/ op = "delay_subscription" THEN PA(x) ELSE 0
+           (* the time at which the i-th source item was produced *)
+           srcT(i) == LET k == FirstPos(S1(x), m.g, m.h0[h], m.h0[h], i) IN
+                      IF k <= m.h0[h] + 1 THEN m.ht[h] ELSE m.gt[k]
+       IN /\ (* order: a prefix of the source's items (a contiguous run of them for a delayed subscription to a hot source) *)
+             anyorder \/ (IF delayed \/ cold THEN IsPrefixSeq(gotN, ref.items) ELSE IsInfix(gotN, ref.items))
+          /\ (* the terminal is the source's, completion only after every item *)
+             gt # "" => (anyorder \/ (gt = ref.term /\ (gt = "C" /\ (delayed \/ cold) => Len(gotN) = Len(ref.items))))
+          /\ (* everything has been delivered once the executor holds no task any more *)
+             (o.live = 0 /\ (delayed \/ cold) /\ GetI(m.hend, h) = 0 /\ ~anyorder) =>
+                 (IF ref.term = "E" THEN gt = "E" ELSE got = MsgsOf(ref))
+          /\ (* never early *)
+             \A i \in 1..Len(gotN) :
+                IF op = "delay_subscription" THEN at[i] >= m.ht[h] + d
+                ELSE IF op = "delay" /\ ~anyorder THEN at[i] >= srcT(i) + d
+                ELSE TRUE
+
 (* the AST index of the share / publish operator in the chain below x (0 if none) *)
 RECURSIVE ShareIn(_)
 ShareIn(x) == IF x = 0 THEN 0
@@ -162,6 +212,7 @@ MonStep(m0, step, C) ==
                [mh EXCEPT !.rh = Append(@, mh.nh), !.hx[mh.nh] = s.a]
           [] s.k = "mnew" ->
                LET mh == NewHandle(m, -1) IN [mh EXCEPT !.rh = Append(@, mh.nh)]      \* root -1: a bare composite
+          [] s.k = "adv" -> [m EXCEPT !.now = @ + s.a]
           [] s.k = "emit" -> [m EXCEPT !.g = Append(@, <<s.a, s.t, s.v>>)]
           [] s.k = "emitc" -> [m EXCEPT !.g = Append(@, <<s.a + 100, s.t, s.v>>)]     \* `create` inputs: own id range
           [] s.k = "sunsub" -> [m EXCEPT !.g = Append(@, <<s.a, "X", U>>)]
@@ -224,7 +275,8 @@ MonStep(m0, step, C) ==
       allLeft == subsOf # {} /\ \A h \in subsOf : GetI(m.hend, h) > 0
       r9 == Flag(r8, "F13" \notin KF /\ s.k \in {"emit", "emitc"} /\ o.fault = "" /\ allLeft
                      /\ o.cnt[CntTap] > m.lastcnt[CntTap], "C11", checks)
-  IN [r9 EXCEPT !.lastcnt = o.cnt]
+      r10 == Flag(r9, "C07" \in checks /\ o.fault = "" /\ ~C07Check([r9 EXCEPT !.gt = Pad(@, Len(r9.g), m.now)], o, C), "C07", checks)
+  IN [r10 EXCEPT !.lastcnt = o.cnt, !.gt = Pad(@, Len(r10.g), m.now)]
 
 RECURSIVE MonRun(_, _, _)
 (* all property ids violated somewhere along a behaviour *)
